@@ -85,6 +85,15 @@ def cleanup_creates():
             prog += [("set", 8, ("lit", 1))] if trig in ("self", "rerun") else [("dispose", 2)]
             prog += [("set", 1, ("lit", 1)), ("set", 8, ("lit", 2)), ("dispose", 0)]
             out.append(("cleanup-creates:%d" % k, prog)); k += 1
+    # (c) a cleanup disposes its own scope / an ancestor while siblings taken out by the outer disposal are still alive,
+    #     then looks up a context / creates things from one of them (finding F21)
+    for target in (4, 9):
+        for act in ([("usectx", 1)], [("signal", 7, ("lit", 1))], [("effect", 7, ("body", None, [("usectx", 1)], ("get", 1)))], [("oncleanup", 5, [])]):
+            prog = [("signal", 1, ("lit", 0)),
+                    ("scope", 8, [("curscope", 9), ("provide", 1, ("lit", 3)),
+                                  ("scope", 2, [("curscope", 4), ("scope", 5, []), ("oncleanup", 1, [("dispose", target), ("runin", 5, act)])])]),
+                    ("dispose", 2), ("set", 1, ("lit", 2)), ("dispose", 0)]
+            out.append(("cleanup-creates:%d" % k, prog)); k += 1
     return out
 
 
